@@ -595,6 +595,7 @@ pub fn run_trust(tier: &str, out_path: &str) -> Value {
     }
     let results = parallel_map(&plans, |i, (n, masks, explicit)| {
         let mut sim: Sim<Frame> = Sim::new(400 + i as u64);
+        sim.trace_sample(i as u64, 3, 20_000);
         for k in 0..*n {
             let mut cfg = base_config(Mode::Switch);
             cfg.crypto.password = Some(names[k].into());
@@ -629,5 +630,6 @@ pub fn run_trust(tier: &str, out_path: &str) -> Value {
         t.ev(r.clone());
     }
     let events = t.finish();
-    json!({"runs": plans.len(), "steps": plans.len(), "events": events})
+    let cloud = write_cloud_blocks(&format!("{}.cloud", out_path));
+    json!({"runs": plans.len(), "steps": plans.len(), "events": events, "cloud_events": cloud})
 }
